@@ -187,6 +187,21 @@ def r_desugar_for(text):
     return text, n
 
 
+def _make_exit_count_check(k):
+    def check(text):
+        masked = rustscan.mask(text)
+        n = len(re.findall(r'\breturn\b', masked)) + len(re.findall(r'\?\s*[;)\n.]', masked))
+        if n != k:
+            raise rustscan.ScanError('exit-count check RTR%d: body has %d `return`/`?` exits (lost anchor: '
+                                     'the spliced release assertions no longer cover every early exit)' % (k, n))
+        return text, 0
+    check.__doc__ = ('RTR%d (check only, changes nothing): the function body must contain exactly %d early exits '
+                     '(`return` keywords / `?` operators); otherwise extraction fails (undecided).  Used by unit '
+                     'thread_pool so that a newly added early exit that would drop a MutexGuard without a spliced '
+                     'release assertion cannot go unnoticed.' % (k, k))
+    return check
+
+
 RULES = {
     'RZ4': r_desugar_for,
     'RT2': r_format_any,
@@ -206,3 +221,6 @@ REGEX_RULES = {
             'RZ3: drop `#[serde(..)]` attributes on fields/variants of copied items (R7: attributes have no '
             'effect on values; the serde derive itself is not carried over)'),
 }
+
+for _k in range(0, 8):
+    RULES['RTR%d' % _k] = _make_exit_count_check(_k)
